@@ -85,6 +85,13 @@ CLAIMED.update({
               "push-down), rows outside the mask are skipped only for result kinds that bound the answer from above, and the scanner "
               "plans a post-index filter whenever a recheck is needed.",
               "That zone statistics / bloom bits / trigram postings are supersets is not decided.", "DESIGN.md 3 C20"),
+    "C26": _c("other", "writer/reader dispatch agreement (AGREE) over the call graph and enum arms",
+              "For each compressor family the Compression variants an implementation can emit as its description (description-helper "
+              "calls reachable from compress / the strategy function, each helper mapped to the variant it constructs) are a subset of "
+              "the variants the matching create_*_decompressor decodes with a non-error arm; every variant of the oneof is decodable "
+              "somewhere or emitted nowhere.",
+              "Losslessness itself (decompress(compress(x)) = x) and block-size limits are value-level and not decided.",
+              "DESIGN.md 3 C26"),
     "C31": _c("other", "who-may-call over the call graph + enum-arm analysis of the upload state machine",
               "The two calls that make an object visible (single PUT, multipart complete) are made only from the two state-transition "
               "helpers, which are called only from poll_shutdown; poll_write/poll_flush cannot reach them; abort and Drop abort an "
